@@ -20,14 +20,13 @@ Model level (the functions the driver runs, `Model/C01.lean`):
 * concrete runs by kernel evaluation: `f1_shares_consistent_fixed`, `f1_shares_inconsistent_unfixed`,
   `reconstruction_run_consistent` (a run that reconstructs a disqualified QUAL member's key).
 
-`interpolate0_tie_partial`: the Nat implementation (`interpolate0`, Fermat inverse by square and
-multiply) is tied to the field formula only on concrete instances over the real modulus (kernel
-evaluation) and differentially (independent big.Int code in the harness on every run).
-`powMod_eq` and `inv_spec` prove that the model's `inv` is the modular inverse for every prime
-modulus (`x · inv q x ≡ 1`).
-**Gap**: the remaining fold-to-`Finset` step (that `interpolate0 q`, given `inv_spec`, equals the
-field expression of `lagrange_at_zero` in `ZMod q`) is not proved, and — inherited from C01 — no protocol-level
-proof that every honest member's QUAL set is the same for all adversaries.
+The tie between the executable `interpolate0` (Nat arithmetic, Fermat inverse by square and
+multiply: `powMod_eq`, `inv_spec`) and the field formula is closed in `Props/C02Tie.lean`:
+`interpolate0_eq_lagrange` and `threshold_interpolates_exec` (for every prime modulus below 2^512,
+A-field = primality of the bn256 order is the only hypothesis).  `interpolate0_examples` are concrete
+instances over the real modulus.
+**Gap** (inherited from C01): no protocol-level proof that every honest member's QUAL set is the
+same for all adversaries.
 -/
 namespace KeepVerif.C02
 open KeepVerif.C01
@@ -263,7 +262,7 @@ theorem subsetsOfSize_spec {α} (k : Nat) (l s : List α) (h : s ∈ subsetsOfSi
 
 /-- `interpolate0` on the real bn256 order recovers the constant term of `5 + 2x + 3x²` from the
     shares at 1, 3, 5 and at 2, 4, 7, and of a polynomial with coefficients near the modulus. -/
-theorem interpolate0_tie_partial :
+theorem interpolate0_examples :
     interpolate0 Gen.C02.order [(1, 10), (3, 38), (5, 90)] = 5 ∧
     interpolate0 Gen.C02.order [(2, 21), (4, 61), (7, 166)] = 5 ∧
     (let r := Gen.C02.order
